@@ -18,7 +18,7 @@ def _same_payload(a, b):
         return False
 
 
-def check_conserved(G, Gblocks, scfg, joined):
+def check_conserved(G, Gblocks, scfg, joined, payload_snap=None):
     """G: name->successors before, Gblocks: name->block objects before."""
     leaves, regions = flatten(scfg)
     orig = {k: b for k, b in leaves.items() if is_orig(b)}
@@ -39,6 +39,13 @@ def check_conserved(G, Gblocks, scfg, joined):
                 continue
             if not _same_payload(getattr(b, f.name), getattr(ob, f.name)):
                 raise Viol("C05", "payload_changed", (k, f.name))
+        if payload_snap is not None:
+            for f, items in payload_snap.get(k, {}).items():
+                cur = getattr(b, f, None)
+                if not isinstance(cur, list) or len(cur) != len(items) or any(
+                        x is not y for x, y in zip(cur, items)):
+                    raise Viol("C05", "payload_list_mutated", (k, f, len(items),
+                                                               len(cur) if isinstance(cur, list) else None))
         old = G[k]
         new = b._jump_targets
         if len(old) == 0:
